@@ -181,7 +181,12 @@ func (r FileReplacer) Replace(d data.Data, cl Changelog) (*ast.File, error) {
 		return nil, err
 	}
 
-	for _, m := range fd.Matches {
+	// Matches were collected in pre-order. Replace them in reverse so that
+	// a match nested inside a node that another match reproduces (for
+	// example, a block among the statements skipped by a "...") is
+	// rewritten before the outer match copies it.
+	for i := len(fd.Matches) - 1; i >= 0; i-- {
+		m := fd.Matches[i]
 		v := reflect.Indirect(reflect.ValueOf(m.parent)).FieldByName(m.name)
 		if !v.IsValid() {
 			// This is a bug in our code.
